@@ -332,6 +332,22 @@ def w_break_cmdsubst : Prog :=
 theorem cex_break_cmdsubst : runFile 40 w_break_cmdsubst ≠ Bash.semFile 40 w_break_cmdsubst := by decide +kernel
 example : supportedProg false w_break_cmdsubst = false ∧ supportedProg true w_break_cmdsubst = false := by decide +kernel
 
+/-- `false; echo "$?$( exit 3 )$?"` -/
+def w_status_after_cmdsubst : Prog :=
+  (.cons (.mk false .fls) (.cons (.mk false (.echoSub [.status] (.cons (.mk false (.exit (some 3))) .nil) [.status])) .nil))
+
+theorem cex_status_after_cmdsubst :
+    runFile 40 w_status_after_cmdsubst ≠ Bash.semFile 40 w_status_after_cmdsubst := by decide +kernel
+example : supportedProg false w_status_after_cmdsubst = false ∧ supportedProg true w_status_after_cmdsubst = false := by decide +kernel
+
+/-- `echo "a$( exit 3 )"; x=1; echo "$?"`: the status of a substitution in an argument is not seen by a
+    later assignment (the mechanism of `lastExpandExit`). -/
+def ex_expand_status_not_stale : Prog :=
+  (.cons (.mk false (.echoSub [.lit [97]] (.cons (.mk false (.exit (some 3))) .nil) [])) (.cons (.mk false (.assign [120] [.lit [49]])) (.cons (.mk false (.echo [.status])) .nil)))
+
+example : supportedProg false ex_expand_status_not_stale = true := by decide +kernel
+example : runFile 30 ex_expand_status_not_stale = some ([97, 10, 48, 10], 0) := by decide +kernel
+
 /-- The full statement is false. -/
 theorem run_eq_bashsem_statement_false : ¬ run_eq_bashsem_statement :=
   fun h => cex_break_nested (h 40 w_break_nested)
